@@ -102,6 +102,8 @@ def run_all():
     b, j, Bn = z3.Ints("b j Bn")
     hyp = [Bn >= 1, b >= 0, b < Bn, j >= 0]
     _prove("divmod.row", hyp, z3.And((j * Bn + b) / Bn == j, (j * Bn + b) % Bn == b), out)
+    pq, qq = z3.Ints("p_c q_c")
+    _prove("mul.cancel", [Bn >= 1], z3.Implies(pq * Bn + b == qq * Bn + b, pq == qq), out)
     return out
 
 
